@@ -186,13 +186,19 @@ def run(ctx):
                                   % (worst if worst else ("?", 0, 0, 0)), dict(desc, dspec=dspec, ps=ps))
             # ---- "posteriors are those of the correctly labelled data": the model setup_mcmc assembles for the same
             # surveys (chronological lists only: the known label defect must stay out of this monitor)
-            if dspec["form"] == "list" and chrono and ns <= 4 and i % 4 == 0:
+            if chrono and ns <= 4 and i % 4 == 0:
                 joker = TheJoker(prior, rng=np.random.default_rng([ctx.seed, i]))
                 post = joker.rejection_sample(data, samples, in_memory=True, max_posterior_samples=1)
                 with prior.model:
                     joker.setup_mcmc(data, post)
                 f, vnames = mcmc.compile_model_rv(prior.model)
-                dev = mcmc.model_rv_deviation(f, vnames, ps, du, lins[assignments[0]], ns - 1, rng)
+                # which survey dv0_k belongs to: the k-th further source of a list, the k-th key in sorted order of a dict
+                if dspec["form"] == "dict":
+                    srt_ = sorted(dspec["keys"])
+                    lin_m = gen.linear_problem(dspec, ps, tuple(srt_.index(k_) for k_ in dspec["keys"]))
+                else:
+                    lin_m = lins[assignments[0]]
+                dev = mcmc.model_rv_deviation(f, vnames, ps, du, lin_m, ns - 1, rng)
                 if dev is None:
                     ctx.count("mcmc_slices_unmapped")
                 else:
